@@ -226,7 +226,17 @@ func mutateMsgs(r *wvlib.Rng, msgs []PMsg, nOld, nNew int) ([]PMsg, string) {
 	k := r.Intn(len(out))
 	m := out[k]
 	desc := ""
-	switch r.Intn(10) {
+	switch r.Intn(11) {
+	case 10: // a control that moves the old-file cursor past the end of the old file, followed by one that adds
+		for i := range out {
+			j := (k + i) % len(out)
+			if out[j].Kind == "C" && !out[j].Eof {
+				out[j].A = []int64{1, 2, 300, 301, 2049, 1 << 20, 10 << 20}[r.Intn(7)]
+				ins := PMsg{Kind: "C", Data: r.Bytes(r.Pick(1, 10, 200))}
+				out = append(out[:j+1], append([]PMsg{ins}, out[j+1:]...)...)
+				return out, fmt.Sprintf("msg %d control.seek=%d then an inserted control adding %d bytes", j, out[j].A, len(ins.Data))
+			}
+		}
 	case 0: // drop a message (missing end markers among them)
 		desc = fmt.Sprintf("drop msg %d (%s)", k, m.Kind)
 		out = append(out[:k], out[k+1:]...)
